@@ -3,17 +3,20 @@
 registered checks against it. Writes /verif/seeded/MATRIX.json and updates each meta.json with what caught it."""
 import json, os, re, subprocess, sys, glob
 V = '/verif'
+REPO = os.environ.get('VERIF_REPO', '/repo')          # a scratch worktree when several matrix workers run side by side
+OUT = os.environ.get('VERIF_MATRIX_OUT', V + '/seeded/MATRIX.json')
+WRITE_META = OUT.endswith('/seeded/MATRIX.json')
 man = json.load(open(V + '/MANIFEST.json'))
 pids = [c['property_id'] for c in man['checks']]
 only = sys.argv[1:]
-matrix = json.load(open(V + '/seeded/MATRIX.json')) if only and os.path.exists(V + '/seeded/MATRIX.json') else {}
-assert subprocess.run(['git', '-C', '/repo', 'status', '--porcelain', '--untracked-files=no'], capture_output=True, text=True).stdout.strip() == '', '/repo not clean'
+matrix = json.load(open(OUT)) if only and os.path.exists(OUT) else {}
+assert subprocess.run(['git', '-C', REPO, 'status', '--porcelain', '--untracked-files=no'], capture_output=True, text=True).stdout.strip() == '', REPO + ' not clean'
 for d in sorted(glob.glob(V + '/seeded/*/')):
     label = os.path.basename(d.rstrip('/'))
     if only and label not in only:
         continue
     meta = json.load(open(d + 'meta.json'))
-    r = subprocess.run(['git', '-C', '/repo', 'apply', d + 'patch.diff'], capture_output=True, text=True)
+    r = subprocess.run(['git', '-C', REPO, 'apply', d + 'patch.diff'], capture_output=True, text=True)
     if r.returncode != 0:
         matrix[label] = {'error': 'patch does not apply: ' + r.stderr[:300]}
         continue
@@ -33,15 +36,18 @@ for d in sorted(glob.glob(V + '/seeded/*/')):
             elif rc != 0:
                 caught[pid] = ['EXIT-%d' % rc]
     finally:
-        subprocess.run(['git', '-C', '/repo', 'checkout', '--', '.'])
+        subprocess.run(['git', '-C', REPO, 'checkout', '--', '.'])
     matrix[label] = {'property': meta['property'], 'caught_by': caught}
     meta['checks_run_against_it'] = pids
     meta['caught_by'] = caught
     meta['caught_by_own_property_check'] = meta['property'] in caught
-    json.dump(meta, open(d + 'meta.json', 'w'), indent=1)
+    if WRITE_META:
+        json.dump(meta, open(d + 'meta.json', 'w'), indent=1)
+    json.dump(matrix, open(OUT, 'w'), indent=1)
     print(label, meta['property'], '->', {k: v[:3] for k, v in caught.items()}, flush=True)
-json.dump(matrix, open(V + '/seeded/MATRIX.json', 'w'), indent=1)
+json.dump(matrix, open(OUT, 'w'), indent=1)
 # evidence files were rewritten against mutated trees: regenerate on the clean tree
-for pid in pids:
-    subprocess.run([V + '/check', pid], cwd=V, capture_output=True, text=True)
+if REPO == '/repo':
+    for pid in pids:
+        subprocess.run([V + '/check', pid], cwd=V, capture_output=True, text=True)
 print('MATRIX DONE')
